@@ -51,3 +51,16 @@ Proof.
   intros H. rewrite (nested_dot_dot_primitive S cname Q r arr H). simpl. split; auto.
   apply nouts_bag. now apply derive_wfb.
 Qed.
+
+(* dot( cartesian_d(S), Q... ): the same, under the hypotheses of the nested cartesian theorem *)
+Theorem nested_cart_bag S d (Hd0 : d <> 0) cname Q r (arr : list arv) :
+  (forall x, In x arr -> is_scatter S x = false -> In (fst x) Q) ->
+  wfc S d (scattered S arr) ->
+  wfb (names cname Q) r cname (derive S cname (fun ai x => map mk_out (emitted S d ai x)) [] arr) ->
+  snd (run (tree S cname Q (KCart d)) init_state arr) = None /\
+  Permutation (concat (fst (run (tree S cname Q (KCart d)) init_state arr)))
+              (GB2.gdone (names cname Q) r (derive S cname (fun ai x => map mk_out (emitted S d ai x)) [] arr)).
+Proof.
+  intros Hq Wi Wo. rewrite (nested_dot_cart S d Hd0 cname Q r arr Hq Wi Wo). simpl. split; auto.
+  now apply nouts_bag.
+Qed.
